@@ -540,6 +540,9 @@ def native_retry_sched(suite, native_ov, req, wdir, race=False, tries=6, batch=4
     for t in range(tries):
         res, err = run_native(suite["pkg"], native_ov, [req] * batch, wdir, "retry", race=race, jitter=True)
         if res is None:
+            # an uncaught panic in a goroutine of the code under test ends the whole test binary: that is the failure
+            if "panic:" in err and "goroutine" in err:
+                return True
             return False
         if any(any(x.startswith("ASSERT-FAIL:") or x == "PANIC" for x in o) for o in res):
             return True
